@@ -154,6 +154,19 @@ CLAIMED = {
                 "libstdc++'s (app=1, ate=2, binary=4, in=8, out=16, trunc=32), read back from clang's constant evaluation.",
         "design": "4/C14",
     },
+    "C15": {
+        "rules": "R-MUSTCALL, R-ATOMIC, R-INDEX (class invariants, linear combination), R-GUARD, R-UNITS (typedef sugar)",
+        "text": "Static analysis of the three refusal / consistency clauses of the adaptive Huffman tree that are visible in "
+                "the code's shape: the capacity refusal (root count equal to the counters' maximum) dominates the first count "
+                "store and no store precedes a throw site; every public operation passes a range verifier that refuses exactly "
+                "the out-of-range values before the parameter-derived subscripts, which are entailed in range with "
+                "constructor-derived table sizes; a symbol becomes a node position only through the code->leaf map, in the "
+                "encoder as in the update. The tree invariants themselves (valid prefix code, sibling property, equality with "
+                "a reference) are properties of update histories and are declined.",
+        "note": "Declined: validity of the code, shape equality with the reference, the block-leader scan bound, table-derived "
+                "indices, encoder/decoder bit-order agreement.",
+        "design": "4/C15",
+    },
     "C16": {
         "rules": "R-ENUMBITS, R-LAYOUT, R-NOPAD, R-SIB, R-WRITESET, R-ATOMIC, R-MUSTCALL",
         "text": "Static checks on the packed tile record and its accessors: every CellType enumerator is representable "
